@@ -280,23 +280,36 @@ CHECKS["C01"]["text"] = (
     "survives encode_json_representation -> decode_json_representation -> normalisation on insertion unchanged; attribute "
     "level — n values come back as exactly those n values, in order; record level — the object written for a record is read "
     "back, in a container declaring its names, as a record of the same kind and identifier whose every attribute holds the "
-    "same values in the same order, nothing else in the container changing; the decoder only builds well-formed documents (for "
-    "all trees). The container level (prefix block, identifier-keyed maps, arrays for repeated identifiers, anonymous ids, "
-    "bundles) is modelled and executed, its theorem stated but not yet proved (partial). Tie: ExportJson/LoadJson in the "
+    "same values in the same order, nothing else in the container changing; container level — the record maps (kind label -> "
+    "identifier string -> object or array of objects, anonymous identifiers and their cache included) are the JSON of an "
+    "abstract grouping and are read back as exactly one record per written record, in the grouped order, which is a "
+    "permutation of the records; prefix block — for plain managers (pairwise different prefixes and URIs, no built-in "
+    "prefix, not the word 'default') the block re-creates the bindings; document level — bundle-free documents with a plain "
+    "manager round-trip with no hypothesis on the reader's manager, documents with bundles under pairwise different keys "
+    "that denote pairwise different URIs in their bundles' scopes; the decoder only builds well-formed documents (for all "
+    "trees). The hypotheses exclude exactly the situations of the open findings C01-F1..F4 (partial in that sense). Tie: ExportJson/LoadJson in the "
     "correspondence programs (implementation tree = model tree; loaded document = model decode); direct oracle: every "
     "document x 5 json.dump option sets, strict-content round trip.")
-CHECKS["C01"]["technique"] = ("Coq proofs at value, attribute and record level + differential correspondence at JSON-tree "
-                              "level + strict round-trip oracle")
+CHECKS["C01"]["technique"] = ("Coq proofs at value, attribute, record, container and document level + differential "
+                              "correspondence at JSON-tree level + strict round-trip oracle")
 CHECKS["C10"]["text"] = CHECKS["C10"]["text"].replace(
     "force_types. The readers are Gallina definitions",
     "force_types; (3) record level for PROV-JSON: JsonSpec.read_record of the object written for a record is the record's "
-    "kind URI, identifier URI and, per attribute in order, every (attribute URI, value content). The readers are Gallina "
-    "definitions")
+    "kind URI, identifier URI and, per attribute in order, every (attribute URI, value content); (4) container level for "
+    "PROV-JSON: JsonSpec.read_container of what the writer emits for a container is the list of its records' contents in the "
+    "grouped order. The readers are Gallina definitions")
 CHECKS["C14"]["text"] = CHECKS["C14"]["text"].replace(
     "graph_to_prov builds a well-formed bundle-free document; endpoint inference",
     "graph_to_prov builds a well-formed bundle-free document; for every document, document -> graph -> document yields the "
     "images of the declared nodes' records and of exactly the relations on the graph's edges, all of them records of the "
     "unified document; endpoint inference")
+CHECKS["C10"]["text"] = CHECKS["C10"]["text"].replace(
+    "Container-level end-to-end theorem stated, not proved (partial).",
+    "Document level (bundle map) for PROV-JSON and PROV-XML above value level: run, not proved (partial).")
+CHECKS["C11"]["text"] = CHECKS["C11"]["text"].replace(
+    "the tree); wrapped values,",
+    "the tree); what the writer emits for a container is read back record by record (the JSON half of 'writing d and loading "
+    "the result gives d again', container level); wrapped values,")
 CHECKS["C02"]["text"] = CHECKS["C02"]["text"].replace(
     "Element-tree assembly (nsmap, child order, subtype element names, bundles) is not modelled (partial).",
     "Record level, element names: for every record class and attribute list the writer takes out exactly one prov:type pair "
